@@ -51,7 +51,7 @@ def run(rep, tier, seed):
     for fn in FN.values():
         C.check_anchor(rep, "manif::" + fn, "include/manif/algorithms/average.h", r"\b%s\(const Container" % fn)
     for k, name in enumerate(ROUTINES):
-        errs = H[k].build(groups, native=False)
+        errs = H[k].build(groups, native=True)
         for g in groups:
             if g == "SO3" and name != "biinvariant" and tier == "quick":
                 continue        # (quaternion group: the Jacobian-weighted variants are in the thorough tier only - minutes per routine)
@@ -62,7 +62,56 @@ def run(rep, tier, seed):
                           "demonstration": "std::vector<manif::%sd> v{...}; manif::%s(v);  does not compile" % (g if g != "R3" else "R3", FN[name])})
                 continue
             check(rep, H[k], g, name, seed)
+            if name != "weighted":
+                stationarity(rep, H[k], g, name)
     rep.bounded.append({"name": "C16 domain", "detail": "N <= 3 points, max_iterations <= 2; convergence clauses not decided"})
+
+
+def stationarity(rep, h, g, name):
+    """bounded stand-in for 'returns m with sum_i log(m^-1 X_i) = 0 up to the stopping tolerance within the iteration budget':
+    the REAL double code on sampled point sets (6 points, geodesic radius <= 0.5) around centres of rotation angle 0 .. 3.1"""
+    import os
+    import random
+    from engine import build
+    binary = h.natives.get(g)
+    if not binary:
+        return
+    from . import spec as S
+    sp = S.make_spec(g, 0, 1)
+    ang = c03.ANG.get(g, [])
+    rng = random.Random(20260927)
+    worst, bad, n = 0.0, None, 0
+    for centre in (0.0, 0.3, 1.0, 1.6, 2.6, 3.1):
+        vals = {}
+        cv = [rng.uniform(-1, 1) for _ in range(sp.dof)]
+        if ang:
+            nrm = sum(cv[i] ** 2 for i in ang) ** 0.5 or 1.0
+            for i in ang:
+                cv[i] = cv[i] / nrm * centre
+        for i, x in enumerate(cv):
+            vals["c%d" % i] = x
+        for k in range(6):
+            d = [rng.uniform(-1, 1) for _ in range(sp.dof)]
+            nrm = sum(x * x for x in d) ** 0.5 or 1.0
+            rad = rng.uniform(0.05, 0.5)
+            for i, x in enumerate(d):
+                vals["d%d_%d" % (k, i)] = x / nrm * rad
+        outs, thrown = build.run_native(binary, name + "_stationarity", vals, os.path.join(build.BUILD, "tmp"))
+        n += 1
+        if thrown:
+            bad = (vals, "threw: " + thrown, centre)
+            break
+        res = max(abs(x) for x in outs["residual"][2])
+        worst = max(worst, res)
+        if not res < 1e-6:
+            bad = (vals, "| mean_i log(m^-1 X_i) | = %.3g after the iteration budget" % res, centre)
+            break
+    nm = "C16/%s/%s/stationary_within_budget" % (g, FN[name])
+    if bad:
+        rep.fail(nm, "FP", "native run (sampled)", {"what": bad[1], "centre_rotation_angle": bad[2]},
+                 {"failing_input_reproduced": True, "input": bad[0], "native_cmd": "%s %s_stationarity <input file>" % (binary, name)})
+    else:
+        rep.standin(nm, "FP", "native run (sampled)", {"point_sets": n, "max_residual": worst, "tolerance": 1e-6})
 
 
 def check(rep, h, g, name, seed):
